@@ -46,6 +46,9 @@ TReturn  == IsEv("Return") /\ Return(Trace[l].v)
 TRefused == IsEv("Refused") /\ ret # "none" /\ UNCHANGED vars
 TRestart == IsEv("Restart") /\ Restart
 TP2Req   == IsEv("P2Req") /\ P2Req(Trace[l].kind)
+\* the coordinator's rollback that arrives while the application is still inside the call (the driver delivers it
+\* from memsql's statement gate, i.e. while the named statement of the branch is in flight)
+TP2Early == IsEv("P2Early") /\ Trace[l].kind = "rollback" /\ P2Early
 TP2      == IsEv("P2") /\ cur.kind = Trace[l].kind /\ P2Rep(Trace[l].status)
 
 \* what the database shows: after the call returned (ph 1) and after phase two (ph 2)
@@ -79,13 +82,13 @@ TId == IsEv("Id") /\ mode = "ids"
 TIdEnd == IsEv("IdEnd") /\ mode = "ids" /\ UNCHANGED vars
 
 TraceNext == TRegReq \/ TRegRep \/ TXa \/ TDml \/ TOther \/ TReport \/ TReturn \/ TRefused \/ TRestart
-             \/ TP2Req \/ TP2 \/ TState \/ TEnd \/ TDrop \/ TId \/ TIdEnd
+             \/ TP2Req \/ TP2Early \/ TP2 \/ TState \/ TEnd \/ TDrop \/ TId \/ TIdEnd
 TraceSpec == TraceInit /\ [][TraceNext]_tvars
 
 Invs == [LegalSequence |-> LegalSequence, AcceptedLegal |-> AcceptedLegal, RegisterBeforeStart |-> RegisterBeforeStart,
          OneIdentifier |-> OneIdentifier, NoCommitAfterFailure |-> NoCommitAfterFailure, ErrorSurfaces |-> ErrorSurfaces,
          RolledBackOnFailure |-> RolledBackOnFailure, PhaseOneComplete |-> PhaseOneComplete, PoolClean |-> PoolClean,
-         ExactlyOneOutcome |-> ExactlyOneOutcome, NothingEarly |-> NothingEarly]
+         ExactlyOneOutcome |-> ExactlyOneOutcome, NothingEarly |-> NothingEarly, RolledBackStays |-> RolledBackStays]
 Failed == {i \in DOMAIN Invs : ~Invs[i]}
 
 HighWater ==
